@@ -101,6 +101,20 @@ def functions(ctx):
         f.__wrapped__ = inner
         f.pattern, f.ret_kind = 'all', 'class'
         out.append(f)
+    # code-object flags that do not decide the kind: a generator function passed through types.coroutine()
+    # (CO_ITERABLE_COROUTINE) is still a generator function; nested / closure-free functions (CO_NESTED, CO_NOFREE)
+    # are whatever their kind flag says
+    for kind, extra, nm in (('gen', 0x100, 'types_coroutine_generator'), ('sync', 0x10 | 0x40, 'nested_sync'),
+                            ('coro', 0x10 | 0x40, 'nested_coro'), ('agen', 0x10, 'nested_agen')):
+        ann = {'x': C('T_x'), 'return': C('R')}
+        if kind == 'gen':
+            ann['return'] = G.shallow('HintSignGenerator')
+        if kind == 'agen':
+            ann['return'] = G.shallow('HintSignAsyncGenerator')
+        f = AFunc(nm, (), ('x',), None, (), None, kind, ann)
+        f.__code__.co_flags |= extra
+        f.pattern, f.ret_kind = 'all', 'class'
+        out.append(f)
     # unannotated callable and return-only callable
     out.append(AFunc('bare', (), ('x',), None, (), None, 'sync', {}))
     out[-1].pattern, out[-1].ret_kind = 'none', 'none'
